@@ -324,7 +324,7 @@ def main():
     worst = 1.0
     for c, r in zip(cases, res):
         if "results" not in r:
-            chk.note_inconclusive(str(r)[:300])
+            chk.note_inconclusive(str(r)[:300], fatal=True)
             chk.evaluations += len(c["items"])
             continue
         chk.merge_counters(r["counts"])
